@@ -62,7 +62,7 @@ def coq_output(st):
     return "(PDiags [%s])" % "; ".join(coq_diag(d) for d in st["diags"])
 
 
-PKGS = {"pa": 0, "pb": 1, "pc": 2, "pd": 3, "pe": 4, "pf": 5}
+PKGS = {"pa": 0, "pb": 1, "pc": 2, "pd": 3, "pe": 4, "pf": 5, "p0": 6}  # p0: the package without files (emptypass.go)
 
 
 def load_error_text(sc, version):
